@@ -470,14 +470,19 @@ func oracle(c *Case, o *Obs, res *vh.Result) {
 		}
 	} else if o.Status == http.StatusMovedPermanently {
 		// SmartRedirectSlashes: only for a request that matches nothing as chi routes it, to the
-		// same path with the trailing slash toggled, which must match
+		// same string (RawPath when set, else Path: the client's escaping is kept) with the trailing
+		// slash toggled, which must match
 		smart := false
 		for _, op := range c.Ops {
 			smart = smart || (op.Use && op.Smart)
 		}
-		toggled := o.Path + "/"
-		if strings.HasSuffix(o.Path, "/") {
-			toggled = strings.TrimSuffix(o.Path, "/")
+		routed := o.RawPath
+		if routed == "" {
+			routed = o.Path
+		}
+		toggled := routed + "/"
+		if strings.HasSuffix(routed, "/") {
+			toggled = strings.TrimSuffix(routed, "/")
 		}
 		targetOK := false
 		for _, i := range live(c.Ops) {
@@ -493,7 +498,7 @@ func oracle(c *Case, o *Obs, res *vh.Result) {
 		case len(matching) > 0:
 			fail("smart-redirect-of-matching-request", fmt.Sprintf("301 to %q although pattern %s matches", o.Location, patString(c.Ops[matching[0]].Pat)))
 		case o.Location != "//h"+hexEscapeNonASCII(toggled) || !targetOK:
-			fail("smart-redirect-wrong-target", fmt.Sprintf("301 to %q for path %q; expected //h%s, which must match a registered pattern (%v)", o.Location, o.Path, toggled, targetOK))
+			fail("smart-redirect-wrong-target", fmt.Sprintf("301 to %q for the routed path %q; expected //h%s, which must match a registered pattern (%v)", o.Location, routed, toggled, targetOK))
 		}
 	} else {
 		if len(matching) > 0 {
@@ -1174,9 +1179,9 @@ func main() {
 		mk("built", []Op{{Use: true, MW: 0}, {Method: "GET", Pat: uid, H: 0},
 			{Method: "GET", Pat: get(Seg{"lit", "u"}, Seg{"var", "a"}, Seg{"var", "b"}), H: 1}}, 1, []string{"a/b"}, "", []bool{true})
 		mk("built", []Op{{Use: true, MW: 0}, {Use: true, MW: 1}, {Method: "GET", Pat: uid, H: 0}}, 2, []string{"1"}, "", []bool{false, false})
-		// what is left of it: a URL with an empty path is routed as "/" but matched as "" before routing
+		// regression cases: a URL with an empty path is routed as "/" and matched as "/" before routing
 		for _, p := range [][]Seg{get(Seg{"lit", ""}), get(Seg{"catch", "p"})} {
-			cases = append(cases, &Case{Stream: "witness-resolve-empty-path", Ops: []Op{{Use: true, MW: 0}, {Method: "GET", Pat: p, H: 0}}, Method: "GET", Wire: "", Chosen: -1, Pre: []bool{true}})
+			cases = append(cases, &Case{Stream: "hostile", Ops: []Op{{Use: true, MW: 0}, {Method: "GET", Pat: p, H: 0}}, Method: "GET", Wire: "", Chosen: -1, Pre: []bool{true}})
 		}
 		// goa's own SmartRedirectSlashes mounted with Use, before / after a recording middleware
 		smartA := []Op{{Use: true, Smart: true}, {Use: true, MW: 0}, {Method: "GET", Pat: uid, H: 0}, {Method: "GET", Pat: files, H: 1}}
@@ -1187,11 +1192,11 @@ func main() {
 			mk("built", so, nu+1, []string{"a/b"}, "", []bool{true, true, true})
 			mk("built", so, nu+1, []string{""}, "", []bool{false, true, false})
 			mk("built", so, nu, []string{"a;b"}, "", []bool{true, false, true})
-			mk("witness-smart-redirect", so, nu, []string{"a/"}, "", []bool{true, true, true})
-			mk("witness-smart-redirect", so, nu, []string{"x/y/"}, "", nil)
+			mk("built", so, nu, []string{"a/"}, "", []bool{true, true, true})
+			mk("built", so, nu, []string{"x/y/"}, "", nil)
 			for _, w := range []string{"/u/1/", "/u", "/u/", "/f", "/f/", "/u/1/2/", "/", "", "/u/a%2F/", "/u/%C3%A9/", "/zz/"} {
 				for _, me := range []string{"GET", "POST"} {
-					cases = append(cases, &Case{Stream: "hostile", Ops: so, Method: me, Wire: hex.EncodeToString([]byte(w)), Chosen: -1, Pre: []bool{w != "", w != "", w != ""}, Real: true})
+					cases = append(cases, &Case{Stream: "hostile", Ops: so, Method: me, Wire: hex.EncodeToString([]byte(w)), Chosen: -1, Pre: []bool{true, true, true}, Real: true})
 				}
 			}
 		}
@@ -1260,7 +1265,7 @@ func main() {
 			}
 			for _, w := range reqs {
 				for _, me := range []string{"GET", "POST"} {
-					cases = append(cases, &Case{Stream: "exhaustive", Ops: ops, Method: me, Wire: hex.EncodeToString([]byte(w)), Chosen: -1, Pre: []bool{w != "", w != ""}})
+					cases = append(cases, &Case{Stream: "exhaustive", Ops: ops, Method: me, Wire: hex.EncodeToString([]byte(w)), Chosen: -1, Pre: []bool{true, true}})
 				}
 			}
 		}
@@ -1282,9 +1287,6 @@ func main() {
 				me := vh.Pick(rng, []string{"GET", "GET", "POST", vh.Pick(rng, methods)})
 				hw := hostileWire(rng, ops)
 				pre := []bool{rng.Chance(1, 3), rng.Chance(1, 3), rng.Chance(1, 3)}
-				if hw == "" { // the empty URL path is the recorded finding resolve-before-routing-empty-path
-					pre = nil
-				}
 				cases = append(cases, &Case{Stream: "hostile", Ops: ops, Method: me, Wire: hex.EncodeToString([]byte(hw)), Chosen: -1, Accept: vh.Pick(rng, mainAccepts), Pre: pre, Real: i%16 == 0})
 				i++
 			}
@@ -1295,10 +1297,10 @@ func main() {
 				c.Stream = "witness-double-unescape"
 				cases = append(cases, c)
 			}
-			if i < 8 { // the empty URL path with an early ResolvePattern, random pattern sets containing "/" or "/{*p}"
+			if i < 8 { // regression: the empty URL path with an early ResolvePattern, random pattern sets containing "/" or "/{*p}"
 				ops := genOps(rng, 1)
 				ops = append(ops, Op{Method: "GET", Pat: vh.Pick(rng, [][]Seg{{{"lit", ""}}, {{"catch", "rest"}}}), H: 9})
-				cases = append(cases, &Case{Stream: "witness-resolve-empty-path", Ops: ops, Method: "GET", Wire: "", Chosen: -1, Pre: []bool{true}})
+				cases = append(cases, &Case{Stream: "hostile", Ops: ops, Method: "GET", Wire: "", Chosen: -1, Pre: []bool{true}})
 			}
 			c2 := &Case{Stream: "witness-notfound-text", Ops: genOps(rng, 1), Method: "GET", Wire: hex.EncodeToString([]byte("/nowhere/zz/zz/zz/zz/zz/zz")), Chosen: -1, Accept: vh.Pick(rng, textAccepts)}
 			cases = append(cases, c2)
@@ -1308,9 +1310,6 @@ func main() {
 	var v, inputs strings.Builder
 	for i, c := range cases {
 		o := run(c)
-		if c.Stream == "built" && o.Status == http.StatusMovedPermanently && o.RawPath != "" {
-			c.Stream = "witness-smart-redirect" // outside the hypothesis of smart_transparent_partial
-		}
 		oracle(c, o, res)
 		fmt.Fprintln(&v, coqCase(i, c, o))
 		res.Count("stream=" + c.Stream)
